@@ -309,7 +309,14 @@ def run_history(sc, want_idempotence=True, faults=None, audits=True):
                             violations.append(viol('own.timestamp-changed', '%s: TIMESTAMP %s -> %s without being asked' % (what, e['ts'], ats[0]['ts']), sig='TIMESTAMP'))
             # entry type of existing, uniquely listed files
             prior = {}
-            for mp, ents in before.items():
+            before_all = dict(before)
+            for vb in valid_before:
+                if vb not in before_all:
+                    try:
+                        before_all[vb] = _m.read_manifest(vb)[0]     # unregistered but valid: update will adopt it
+                    except Exception:
+                        pass
+            for mp, ents in before_all.items():
                 if ents is None:
                     continue
                 for e in ents:
